@@ -151,6 +151,7 @@ def build(tier, seed):
     for w in words(SIGMA, 1, L):
         cases.append({'k': 'word', 'w': list(w)})
     return {
+        'rule_more': "'grid' cases: long evenly spaced decimal node sets (every node, its neighbouring floats, midpoints); 'gridhist': query / node arrays edited in place between calls, integer nodes with negative fractional queries, float32 nodes with float64 queries",
         'cases': cases,
         'rule': 'interp: 5 strictly increasing node sets x every column word over {-1,0,4}^nodes (as column 0 of a '
                 '2- or 3-column table) x every query of the menu; word: all words over {-2,0,1,3} of length 1..%d x '
